@@ -7,6 +7,7 @@ from .C07 import SER_TRUST
 
 class C03(Prop):
     id = 'C03'
+    also_release = True
     module = 'Cbor.Props.C03'
     theorems = ['Props.C03.C03_bytes', 'Props.C03.C03_deterministic', 'Props.C03.int_width', 'Props.C03.shortest_heads', 'Props.C03.head_shortest',
                 'Props.C03.indefinite_shape', 'Props.C03.members_in_order', 'Props.C03.nan_canonical', 'Lemmas.Ser.ser_item',
